@@ -26,6 +26,7 @@ import (
 	"github.com/scrapli/scrapligo/driver/options"
 	"github.com/scrapli/scrapligo/logging"
 	"github.com/scrapli/scrapligo/transport"
+	"github.com/scrapli/scrapligo/util"
 
 	"verif/internal/mon"
 )
@@ -62,6 +63,75 @@ type Desc struct {
 	// reactive: indices of the segments that end a round; the server sends the next round only when it
 	// has received every answer byte the rounds so far call for (bounded wait: timeout/4 after the kernel's acknowledgement)
 	RoundEnds []int `json:"round_ends,omitempty"`
+	// long-timeout family: the library default socket timeout (no option given; TimeoutMs then states the
+	// default, 30 000, for the window arithmetic) and/or the server hanging up (half-close) after the last
+	// byte instead of sitting out the idle window ("eof": Open returns the EOF error, the data is read from
+	// what Open buffered)
+	DefaultTimeout bool   `json:"default_timeout,omitempty"`
+	End            string `json:"end,omitempty"`
+}
+
+// gapLimit: up to which fraction of the read window an observed (acknowledged) server pause counts as
+// "well inside the window". 0.6 for the sub-second windows; for windows of 4 s and more 0.75 still
+// leaves more than a second of margin.
+func gapLimit(T time.Duration) float64 {
+	if T/2 >= 4*time.Second {
+		return 0.75
+	}
+	return 0.6
+}
+
+// GenLong draws a long-socket-timeout opening: TimeoutSocket 10 s or the library default (30 s), a
+// server pause of 2.5-3.5 s (inside the window: TimeoutSocket/2 between bytes, TimeoutSocket/4 before
+// the first byte) before a further round of requests; scripted, paced and reactive variants.
+func GenLong(r *rand.Rand, idx int) Desc {
+	d := Desc{Family: "long", SegMode: "long", TimeoutMs: 10000, End: "eof"}
+	variant := idx % 6
+	switch variant {
+	case 1, 2, 5:
+		d.DefaultTimeout, d.TimeoutMs = true, 30000
+	}
+	if variant == 0 {
+		d.End = "" // sit out the idle window (5 s)
+	}
+	rounds := 2
+	if variant == 3 {
+		rounds = 3 // paced: two pauses
+	}
+	pause := func() int { return 2500000 + r.Intn(1000001) }
+	for k := 0; k < rounds; k++ {
+		var items []Item
+		if r.Intn(2) == 0 {
+			items = append(items, Item{K: "text", X: hex.EncodeToString(genText(r))})
+		}
+		for i, nn := 0, 1+r.Intn(3); i < nn; i++ {
+			items = append(items, Item{K: "neg", V: verbs[r.Intn(4)], O: genOpt(r)})
+		}
+		if r.Intn(2) == 0 {
+			items = append(items, genItem(r, [4]int{0, 1, 1, 3}))
+		}
+		g := r.Intn(400)
+		if k > 0 {
+			g = pause()
+		} else if variant == 2 {
+			g = pause() // late first byte: inside TimeoutSocket/4 = 7.5 s of the default
+		}
+		L := len(wireOf(items))
+		if L > 1 && r.Intn(2) == 0 {
+			x := 1 + r.Intn(L-1)
+			d.Segs = append(d.Segs, x, L-x)
+			d.GapsUs = append(d.GapsUs, g, r.Intn(400))
+		} else {
+			d.Segs = append(d.Segs, L)
+			d.GapsUs = append(d.GapsUs, g)
+		}
+		if variant >= 4 { // reactive: the next round (after its pause) only once this one has been answered
+			d.RoundEnds = append(d.RoundEnds, len(d.Segs)-1)
+		}
+		d.Items = append(d.Items, items...)
+	}
+	d.ReadSize = []int{7, 8192, 65535}[r.Intn(3)]
+	return d
 }
 
 func wireOf(items []Item) []byte {
@@ -660,7 +730,7 @@ func (s *server) run() {
 	}
 	s.lastWriteT = time.Now()
 	s.lastWriteSeq = s.seq.Add(1)
-	if ackedAll && s.err == nil {
+	if ackedAll && s.err == nil && s.end != "eof" {
 		s.deliveredT = s.lastAckT
 		s.deliveredSeq = s.seq.Add(1)
 	}
@@ -671,6 +741,13 @@ func (s *server) run() {
 			<-rd
 			return
 		}
+		// hang-up: only after the kernel reported the opening acknowledged, so that "delivered" precedes
+		// the EOF the client sees in the event order
+		if ackedAll || endBurst(time.Time{}) {
+			s.deliveredT = s.lastAckT
+			s.deliveredSeq = s.seq.Add(1)
+		}
+		s.bursts = burst
 		tc.CloseWrite()
 		s.finish(c, rd)
 		return
@@ -1060,16 +1137,25 @@ func runOnce(d Desc) (res mon.Result, earlyPattern bool) {
 	T := time.Duration(d.TimeoutMs) * time.Millisecond
 	var seq atomic.Int64
 	lg, _ := logging.NewInstance()
-	tr, err := transport.NewTransport(lg, host, transport.TelnetTransport,
-		options.WithPort(port), options.WithTimeoutSocket(T), options.WithTransportReadSize(d.ReadSize))
+	topts := []util.Option{options.WithPort(port), options.WithTransportReadSize(d.ReadSize)}
+	if !d.DefaultTimeout {
+		topts = append(topts, options.WithTimeoutSocket(T))
+	}
+	tr, err := transport.NewTransport(lg, host, transport.TelnetTransport, topts...)
+	if err == nil && tr.Args.TimeoutSocket != T {
+		return inconclusive("harness: the library's socket timeout is %s, the descriptor assumes %s", tr.Args.TimeoutSocket, T)
+	}
 	if err != nil {
 		return mon.Result{Verdict: mon.Violated, Key: "c15/new-transport-failed", Detail: err.Error()}, false
 	}
 	psi0, psiOK := cpuPressure()
 	t0 := time.Now()
 	srv := &server{ln: ln, wire: wire, segs: d.Segs, gaps: d.GapsUs, tail: tail, seq: &seq, t0: t0, window: T,
-		openDone: make(chan struct{}), done: make(chan struct{})}
-	if d.Family == "reactive" {
+		openDone: make(chan struct{}), done: make(chan struct{}), end: d.End}
+	if d.End == "eof" {
+		tail, srv.tail = nil, nil
+	}
+	if len(d.RoundEnds) > 0 {
 		srv.roundNeed = map[int]int{}
 		srv.bound = T / 4
 		off := 0
@@ -1094,13 +1180,15 @@ func runOnce(d Desc) (res mon.Result, earlyPattern bool) {
 		defer func() { recover() }()
 		tr.Close(false)
 	}
-	if openErr != nil {
+	if oe := (*net.OpError)(nil); openErr != nil && errors.As(openErr, &oe) && oe.Op == "dial" {
+		closeTr()
+		return inconclusive("harness: dial failed: %v", openErr)
+	}
+	// a server that hangs up after its last byte makes Open fail with EOF: what Open buffered is read
+	// and judged all the same. (Open returning nil there means its window ended before the hang-up.)
+	if openErr != nil && d.End != "eof" {
 		closeTr()
 		ln.Close()
-		var oe *net.OpError
-		if errors.As(openErr, &oe) && oe.Op == "dial" {
-			return inconclusive("harness: dial failed: %v", openErr)
-		}
 		return mon.Result{Verdict: mon.Violated, Key: "c15/open-error:" + errClass(openErr), NonTrivial: true,
 			Detail: fmt.Sprintf("Open returned %v for opening %s", openErr, hx(wire))}, false
 	}
@@ -1241,6 +1329,31 @@ func runOnce(d Desc) (res mon.Result, earlyPattern bool) {
 		}
 		nontrivial = late >= 1 && span > d.TimeoutMs*500
 	}
+	if d.Family == "long" {
+		tags = append(tags, "family=long", fmt.Sprintf("long-end=%q", d.End), fmt.Sprintf("long-default-timeout=%v", d.DefaultTimeout), fmt.Sprintf("long-reactive=%v", len(d.RoundEnds) > 0))
+		obs["long_socket_timeout_openings"]++
+		// requests scheduled after a server pause of more than 2 s
+		at, late, pauses := 0, 0, 0
+		segEnd, si, paused := 0, 0, false
+		for i := range wire {
+			for si < len(d.Segs) && i >= segEnd {
+				if d.GapsUs[si] > 2000000 {
+					paused = true
+					pauses++
+				}
+				at += d.GapsUs[si]
+				segEnd += d.Segs[si]
+				si++
+			}
+			if paused && i < len(ref.state) && ref.state[i] == 2 {
+				late++
+			}
+		}
+		obs["long_pauses_over_2s_inside_window"] += int64(pauses)
+		obs["long_requests_after_a_pause_over_2s"] += int64(late)
+		obs["rounds_completed"] += int64(srv.roundsDone)
+		nontrivial = late >= 1
+	}
 	if d.Family == "reactive" {
 		tags = append(tags, "family=reactive", fmt.Sprintf("reactive-rounds=%d", len(d.RoundEnds)))
 		obs["reactive_openings"]++
@@ -1303,11 +1416,14 @@ func runOnce(d Desc) (res mon.Result, earlyPattern bool) {
 		if ok, n := explainedByEarlyStop(wire, tail, got, srv.recv); ok {
 			// exactly what a correct client shows whose window ended after n bytes (the rest arrives raw)
 			earlyPattern = true
-			if mon.LoadedSince(t0) {
+			// windows of 4 s and more: the pauses end more than a second before the window does
+			// (gapLimit), so a 100 ms canary overshoot explains nothing; only a saturated machine excuses
+			longWin := T/2 >= 4*time.Second
+			if !longWin && mon.LoadedSince(t0) {
 				return inconclusive("negotiation window ended early: load canary overshot (after %d of %d bytes)", n, len(wire))
 			}
 			if psi1, ok := cpuPressure(); ok && psiOK {
-				if el := time.Since(t0); psi1-psi0 > el/2 { // saturated machine (observed: ~0.9 at load average 100, 0.1-0.3 at load average 7 on 16 cores)
+				if el := time.Since(t0); (!longWin && psi1-psi0 > el/2) || psi1-psi0 > el*9/10 { // saturated machine (observed: ~0.9 at load average 100, 0.1-0.3 at load average 7 on 16 cores)
 					return inconclusive("negotiation window ended early: tasks were waiting for a CPU (PSI some %s of %s; after %d of %d bytes)", psi1-psi0, el, n, len(wire))
 				}
 			}
@@ -1316,7 +1432,7 @@ func runOnce(d Desc) (res mon.Result, earlyPattern bool) {
 				// burst was in the client's receive queue well inside the window that applied to it:
 				// acknowledged within 60 % of TimeoutSocket/4 from the dial (first burst) resp. of
 				// TimeoutSocket/2 from the start of the previous burst's last write and from its own start.
-				if srv.deliveredSeq == 0 || srv.retrans != 0 || srv.pacedGap >= 0.6 {
+				if srv.deliveredSeq == 0 || srv.retrans != 0 || srv.pacedGap >= gapLimit(T) {
 					return inconclusive(earlyMsg)
 				}
 				keys = []string{"c15/negotiation-window-ended-early"}
@@ -1378,6 +1494,8 @@ func init() {
 			"optional plain tail sent after Open. Non-trivial = opening with >=1 two-byte command or escaped IAC and >=2 TCP segments. " +
 			"Paced family (24 quick / 300 thorough): timeout 800/1200 ms, 4-8 bursts (a request in each), first at once, pauses 25-45 % of TimeoutSocket/2, span 0.6-1.5 x timeout; " +
 			"non-trivial = a request scheduled later than TimeoutSocket/2 after the dial. " +
+			"Long-timeout family (6 quick / 42 thorough): TimeoutSocket 10 s or the library default (30 s, no option), a server pause of 2.5-3.5 s inside the window (between rounds; before the first byte with the default) followed by further requests; " +
+			"scripted, two-pause and reactive variants; the server hangs up after the last byte (Open returns EOF, the buffered data is read) or, with 10 s, sits out the idle window; non-trivial = a request after a pause > 2 s. " +
 			"Reactive family (32 quick / 400 thorough): 2-4 rounds of 1-4 requests, with or without trailing text; the server sends round r+1 only after it has received every answer byte the rounds so far call for " +
 			"(bounded wait TimeoutSocket/4 from the kernel's acknowledgement of the round; on give-up the case is judged on what was exchanged); non-trivial = >=2 rounds completed and a non-final round ending with a request's option code. " +
 			"Re-open family (60 quick / 600 thorough): 2-3 consecutive openings on one transport object (3/4) or one driver object (1/4, re-Open after failed Opens only), earlier openings end in parser state clean / after IAC / after IAC verb / after IAC SB / mid-subnegotiation / subnegotiation+IAC, " +
@@ -1401,6 +1519,14 @@ func init() {
 			}
 			r := rand.New(rand.NewSource(seed*104729 + 15))
 			cs := make([]mon.Case, 0, n)
+			nl := 6 // long socket timeouts cost real seconds each: first in the list, spread over the workers
+			if tier == "thorough" {
+				nl = 42
+			}
+			rl := rand.New(rand.NewSource(seed*86028121 + 154))
+			for i := 0; i < nl; i++ {
+				cs = append(cs, mon.MkCase(fmt.Sprintf("c15/l%04d", i), GenLong(rl, i)))
+			}
 			np := 24
 			if tier == "thorough" {
 				np = 300
